@@ -353,6 +353,11 @@ class Report:
         self.distinct = set()
         self.evaluations = 0
         self.rule = ""
+        rd = os.path.join(BUILD, "replay")
+        if os.path.isdir(rd):
+            for fn in os.listdir(rd):
+                if fn.startswith(pid + "_"):
+                    os.unlink(os.path.join(rd, fn))
 
     def obligation(self, name, ok, detail=""):
         self.obligations.append((name, bool(ok), detail))
